@@ -110,15 +110,16 @@ func (c *Ctx) hexClassifier(pkg, recv, name string, hasTerminator bool) {
 	scT := c.typeObj(pkg, recv)
 	modeF := c.fld("scanner.eexec")
 	var lead []byte
+	own := c.privateHelpersB(fn) // pieces of fn that were extracted are evaluated in place
 	classify := func(b byte) (kind string, val int64, why string) {
 		input := append(append([]byte{}, lead...), b, '1', '2', '>')
 		if len(lead) > 0 {
 			input = append(append([]byte{}, lead...), b, '2', '>')
 		}
 		pos := 0
-		ev := &ssaEval{c: c, bind: map[ssa.Value]sv{}, mem: map[string]sv{}}
+		ev := &ssaEval{c: c, bind: map[ssa.Value]sv{}, mem: map[string]sv{}, flatEmbedded: true}
 		ev.noInline = func(f *ssa.Function) bool {
-			return f.Signature.Recv() != nil && pointsTo(f.Signature.Recv().Type(), scT)
+			return !own[f] && f.Signature.Recv() != nil && pointsTo(f.Signature.Recv().Type(), scT)
 		}
 		ev.load = func(ld *ssa.UnOp, addr sv) (sv, bool) {
 			if strings.HasSuffix(addr.s, "."+modeF) {
@@ -134,7 +135,7 @@ func (c *Ctx) hexClassifier(pkg, recv, name string, hasTerminator bool) {
 				return sv{}, false
 			}
 			sc := call.Common().StaticCallee()
-			if sc == nil {
+			if sc == nil || own[sc] {
 				return sv{}, false
 			}
 			if sc.Signature.Recv() != nil && pointsTo(sc.Signature.Recv().Type(), scT) {
@@ -312,12 +313,13 @@ func (c *Ctx) beginEexecTable() {
 		key      sv    // the cipher state when the first byte is read after the decision
 		why      string
 	}
+	own := c.privateHelpersB(fn) // pieces of fn that were extracted are evaluated in place
 	run := func(first byte, window string) outcome {
 		var o outcome
 		o.mode = -1
-		ev := &ssaEval{c: c, bind: map[ssa.Value]sv{}, mem: map[string]sv{}}
+		ev := &ssaEval{c: c, bind: map[ssa.Value]sv{}, mem: map[string]sv{}, flatEmbedded: true}
 		ev.noInline = func(f *ssa.Function) bool {
-			return f.Signature.Recv() != nil && pointsTo(f.Signature.Recv().Type(), scT)
+			return !own[f] && f.Signature.Recv() != nil && pointsTo(f.Signature.Recv().Type(), scT)
 		}
 		ev.load = func(ld *ssa.UnOp, addr sv) (sv, bool) {
 			if strings.HasSuffix(addr.s, "."+modeF) {
@@ -332,7 +334,7 @@ func (c *Ctx) beginEexecTable() {
 				return sv{}, false
 			}
 			sc := call.Common().StaticCallee()
-			if sc == nil || sc.Signature.Recv() == nil || !pointsTo(sc.Signature.Recv().Type(), scT) {
+			if sc == nil || own[sc] || sc.Signature.Recv() == nil || !pointsTo(sc.Signature.Recv().Type(), scT) {
 				return sv{}, false
 			}
 			res := sc.Signature.Results()
